@@ -399,6 +399,26 @@ pub fn program_set(set: &str) -> Vec<Program<MpscFam>> {
             out.extend(child_receives(cap, 1, 1, 2, 5));
         }
     }
+    // a scope owner blocked in recv inside the scope body while the last scoped thread exits
+    for cap in [None, Some(0), Some(1)] {
+        for scoped in [vec![], vec![COp::DropTx]] {
+            for sender in [vec![], vec![COp::Send(21)], vec![COp::DropTx]] {
+                let mut main = vec![GOp::Spawn(2), GOp::ScopeBegin(vec![1]), GOp::Op(COp::Recv), GOp::ScopeEnd, GOp::Join(2)];
+                if scoped.is_empty() {
+                    main.insert(0, GOp::Op(COp::TryRecv));
+                }
+                let txs = if scoped.is_empty() { vec![2] } else { vec![1, 2] };
+                out.push(Program {
+                    cfg: CCfg { cap, tx_threads: txs },
+                    threads: vec![
+                        main,
+                        scoped.iter().cloned().map(GOp::Op).collect(),
+                        sender.iter().cloned().map(GOp::Op).collect(),
+                    ],
+                });
+            }
+        }
+    }
     out.sort_by_key(|p| p.size());
     out
 }
